@@ -550,11 +550,11 @@ mod verif_lex {
         kani::cover!(matches!(r.1, TT::ConditionalDirective(_)), "conditional directive");
         kani::cover!(r.1 == TT::CompilerDirective, "plain directive");
         assert!(sub_ok(s, 2, r), "OB lexcomplex/directive_ok: end within the input, on a character boundary");
-        assert!(matches!(r.1, TT::ConditionalDirective(_) | TT::CompilerDirective), "OB lexcomplex/directive_kind: `{$` starts a directive");
+        assert!(matches!(r.1, TT::ConditionalDirective(_) | TT::CompilerDirective), "OB lexcomplex/directive_kind: brace-dollar starts a directive");
         let name_end = 2 + run(&buf, 2, is_ident_ascii);
         let lowc = |b: u8| if b >= b'A' && b <= b'Z' { b + 32 } else { b };
         let is_if = name_end == 4 && lowc(buf[2]) == b'i' && lowc(buf[3]) == b'f';
-        assert!(!is_if || r.1 == TT::ConditionalDirective(CDK::If), "OB lexcomplex/directive_if: `{$if` is the conditional directive If");
+        assert!(!is_if || r.1 == TT::ConditionalDirective(CDK::If), "OB lexcomplex/directive_if: brace-dollar-if is the conditional directive If");
     }
 
     #[kani::proof]
